@@ -104,6 +104,8 @@ type State struct {
 	depth   int
 	ghost   map[string]Term
 	guardedOutside []string
+	condIdx []int  // indices into pc that are branch conditions
+	pend    string // goal of the last obligation (its assumption is a branch condition)
 }
 
 type ownedRec struct {
@@ -130,6 +132,7 @@ func (st *State) clone() *State {
 		depth:   st.depth,
 		ghost:   make(map[string]Term, len(st.ghost)),
 		guardedOutside: append([]string(nil), st.guardedOutside...),
+		condIdx: st.condIdx[:len(st.condIdx):len(st.condIdx)],
 	}
 	for k, v := range st.cells {
 		n.cells[k] = v
@@ -150,6 +153,20 @@ func (st *State) assume(t Term) {
 	if t.S == "true" || t.S == "" {
 		return
 	}
+	if st.pend != "" && t.S == st.pend {
+		// the assumption that follows a safety obligation acts as a branch
+		// condition (the path continues only if the check passed)
+		st.condIdx = append(st.condIdx, len(st.pc))
+		st.pend = ""
+	}
+	st.pc = append(st.pc, t)
+}
+
+func (st *State) assumeCond(t Term) {
+	if t.S == "true" || t.S == "" {
+		return
+	}
+	st.condIdx = append(st.condIdx, len(st.pc))
 	st.pc = append(st.pc, t)
 }
 
@@ -226,6 +243,7 @@ type Exec struct {
 	fvPtrs  map[*ssa.FreeVar]Val
 	immutKeys map[string]bool
 	outerVals map[string]Val
+	specDepth int
 }
 
 func (x *Exec) note(format string, a ...interface{}) {
@@ -425,7 +443,7 @@ func (x *Exec) load(st *State, l *Loc, T types.Type) Val {
 	case LGlobal:
 		key := x.globalKey(l.Global)
 		t := x.heapGet(st, key, x.te.SortOf(T))
-		v := Val{T: t, Typ: T, Org: "global:" + l.Global.RelString(nil)}
+		v := Val{T: t, Typ: T, Org: "global:" + l.Global.Pkg.Pkg.Name() + "." + l.Global.Name()}
 		x.loadFacts(st, v)
 		return v
 	case LHeapCell:
@@ -537,6 +555,7 @@ func (x *Exec) termOf(st *State, v *Val) Term {
 // Obligations
 
 func (x *Exec) oblige(st *State, class, name string, goal Term, info string) {
+	st.pend = goal.S
 	if !x.classes[class] {
 		return
 	}
@@ -770,9 +789,9 @@ func (x *Exec) runBlock(fr *Frame, st *State, b *ssa.BasicBlock, from *ssa.Basic
 			}
 			st2 := st.clone()
 			fr2 := fr.clone()
-			st.assume(c)
+			st.assumeCond(c)
 			x.runBlock(fr, st, b.Succs[0], b, 0)
-			st2.assume(Not(c))
+			st2.assumeCond(Not(c))
 			x.runBlock(fr2, st2, b.Succs[1], b, 0)
 			return
 		case *ssa.Return:
